@@ -66,6 +66,10 @@ def cases(tier):
             for role in ('server', 'client'):
                 for r in renders:
                     out.append(('comp', ci, bi, role, r))
+    # compression lists that differ by direction (ciphers and MACs alike in both): a server audit reports the server-to-client list
+    for ci, cj in itertools.permutations(range(len(COMPS)), 2):
+        for r in ('plain', 'json'):
+            out.append(('compasym', ci, cj, 'server', r))
     # the same bytes delivered in other TCP segments: the identification line (and the KEXINIT) cut at every offset / byte by byte
     for bi in range(len(BANNERS)):
         for role in ('server', 'client'):
@@ -117,6 +121,10 @@ def build(case):
     elif kind == 'seg':
         _k, bi, _f, role, r = case
         banner = BANNERS[bi]
+    elif kind == 'compasym':
+        _k, ci, cj, role, r = case
+        comp = COMPS[ci]
+        c2s['comp'] = COMPS[cj]
     return role, r, lists, c2s, comp, banner
 
 
@@ -138,7 +146,7 @@ def run_case(case):
     if role == 'server':
         keynames = [x.decode('utf-8', 'replace') for x in lists['key']]
         srv = peer.Server(banner=banner, kex=lists['kex'], key=lists['key'], enc=lists['enc'], mac=lists['mac'],
-                          enc_c2s=c2s.get('enc'), mac_c2s=c2s.get('mac'), comp=comp,
+                          enc_c2s=c2s.get('enc'), mac_c2s=c2s.get('mac'), comp=comp, comp_c2s=c2s.get('comp'),
                           host_keys=peer.standard_host_keys(keynames))
         return H.audit(srv, opts=RENDER[r] + ['--skip-rate-test'], faults=faults), (lists, c2s, comp, banner)
     cli = peer.Client(banner=banner, kex=lists['kex'], key=lists['key'], enc=c2s.get('enc', lists['enc']), mac=c2s.get('mac', lists['mac']),
@@ -437,7 +445,7 @@ def validation_cases(cs, seed, n):
         if role == 'server':
             keynames = [x.decode('utf-8', 'replace') for x in lists['key']]
             out.append({'label': str(case)[:80], 'opts': RENDER[r], 'make': (lambda lists=lists, c2s=c2s, comp=comp, banner=banner, keynames=keynames: peer.Server(
-                banner=banner, kex=lists['kex'], key=lists['key'], enc=lists['enc'], mac=lists['mac'], enc_c2s=c2s.get('enc'), mac_c2s=c2s.get('mac'), comp=comp,
+                banner=banner, kex=lists['kex'], key=lists['key'], enc=lists['enc'], mac=lists['mac'], enc_c2s=c2s.get('enc'), mac_c2s=c2s.get('mac'), comp=comp, comp_c2s=c2s.get('comp'),
                 host_keys=peer.standard_host_keys(keynames)))})
         else:
             out.append({'kind': 'client', 'label': str(case)[:80], 'opts': RENDER[r], 'make': (lambda lists=lists, c2s=c2s, comp=comp, banner=banner: peer.Client(
@@ -461,7 +469,7 @@ def run(tier, seed):
     return evidence.finish(
         PID, tier, seed, st, t0,
         rule='name alphabet per category (2 DB names, unknown, 303-char, non-UTF-8, special characters; kex adds gss-* with base64 suffixes and '
-             '"gss-"): all lists of length 0..%d in one category at a time, full cross of all categories at length <=1, asymmetric c2s/s2c, '
+             '"gss-"): all lists of length 0..%d in one category at a time, full cross of all categories at length <=1, asymmetric c2s/s2c (cipher, MAC and compression lists), '
              'compression lists x banners; each banner cut into two segments at every offset and delivered byte by byte; x role {server, client} x rendering {plain, batch, verbose, json%s}; every SSH-1 cipher mask and '
              'authentication mask; the same oracle over the %d cooperative peers of props/zoo.py (drawn from every other check) in plain, verbose and JSON; '
              '%d (probe connection 1..4, connection-level fault, rendering, single/-T) combinations: trouble on a later connection of the audit leaves the reported lists intact; every byte value 0..255 at five positions of a name / list (edges and middle) per category, JSON, server role (kex and enc also client role); '
